@@ -105,6 +105,7 @@ type c42Run struct {
 	Got         []byte   // application bytes the server's Read returned
 	ReadErr     error    // the error that ended the server's Read loop
 	Hung        bool
+	Panic       *panicBox
 }
 
 func c42Server(cb c42Combo) *bfe_tls.Config {
@@ -124,7 +125,7 @@ func c42Client(cb c42Combo, conn *bufConn) appClient {
 // receives the post-handshake client records and returns the byte stream to
 // deliver instead.
 func c42Exchange(cb c42Combo, plain [][]byte, hsOps []tamperOp, transform func(recs [][]byte) []byte) *c42Run {
-	out := &c42Run{}
+	out := &c42Run{Panic: &panicBox{}}
 	cEnd, mA := newBufPipe() // client <-> mitm
 	mB, sEnd := newBufPipe() // mitm <-> server
 	srv := bfe_tls.Server(sEnd, c42Server(cb))
@@ -135,6 +136,7 @@ func c42Exchange(cb c42Combo, plain [][]byte, hsOps []tamperOp, transform func(r
 	// server -> client: verbatim
 	go func() {
 		defer wg.Done()
+		defer out.Panic.guard(cEnd, mA, mB, sEnd)
 		io.Copy(mA, mB)
 		mA.CloseWrite()
 	}()
@@ -144,6 +146,7 @@ func c42Exchange(cb c42Combo, plain [][]byte, hsOps []tamperOp, transform func(r
 	go func() {
 		defer wg.Done()
 		defer mB.CloseWrite()
+		defer out.Panic.guard(cEnd, mA, mB, sEnd)
 		sawCCS, collecting := false, false
 		var held []byte // record held back by an hs-swap
 		for idx := 0; ; idx++ {
@@ -213,6 +216,7 @@ func c42Exchange(cb c42Combo, plain [][]byte, hsOps []tamperOp, transform func(r
 	go func() {
 		defer wg.Done()
 		defer cEnd.Close()
+		defer out.Panic.guard(cEnd, mA, mB, sEnd)
 		if cliErr = cli.Handshake(); cliErr != nil {
 			return
 		}
@@ -226,6 +230,7 @@ func c42Exchange(cb c42Combo, plain [][]byte, hsOps []tamperOp, transform func(r
 	go func() {
 		defer wg.Done()
 		defer sEnd.Close()
+		defer out.Panic.guard(cEnd, mA, mB, sEnd)
 		if srvHsErr = srv.Handshake(); srvHsErr != nil {
 			return
 		}
@@ -318,6 +323,13 @@ func applyOps(recs [][]byte, donor [][]byte, ops []tamperOp) []byte {
 			continue
 		}
 		d := segs[i].data
+		switch op.Kind {
+		case "dup", "replay-later", "swap", "drop", "foreign-insert", "foreign-replace", "trunc-at-boundary":
+		default:
+			if len(d) < 6 {
+				continue // an earlier op already cut this record short: nothing left to edit
+			}
+		}
 		switch op.Kind {
 		case "flip-type":
 			segs[i].data = flipBit(d, 0, 0)
@@ -470,7 +482,7 @@ func c42Check(r *vkit.Run, c *c42Case, donors *c42Donors, g *vkit.Rand) {
 	}) {
 		return
 	}
-	if hangCheck(r, run.Hung, c) {
+	if abnormal(r, run.Hung, run.Panic, c) {
 		return
 	}
 	key := fmt.Sprintf("%v|%v|%v", cb, c.Chunks, c.Ops)
@@ -541,7 +553,7 @@ func c42HsCheck(r *vkit.Run, c *c42Case) {
 	}) {
 		return
 	}
-	if hangCheck(r, run.Hung, c) {
+	if abnormal(r, run.Hung, run.Panic, c) {
 		return
 	}
 	key := fmt.Sprintf("hs|%v|%v", cb, c.HsOps)
